@@ -242,6 +242,7 @@ func c17Scenarios(tier mc.Tier) []mc.Scenario {
 		out = append(out, mc.Scenario{Name: "C17-" + sc.name, Bound: -1, Body: sc.bodyCancelOne,
 			Params: map[string]string{"pattern": sc.pattern, "entry": "validate", "callers": "2", "cache": fmt.Sprint(sc.cache), "cancellation": "one caller's own context, at most once, at every quiescent point"}})
 	}
+	out = append(out, c17WearScenario())
 	// two callers of one validator with different signing times: per-call options must not leak between calls
 	add(&c17Scenario{name: "two-callers-different-signing-times-I", pattern: "I", entry: "validate", callers: 2, fetcher: "http", stCaller: []bool{false, true}})
 	add(&c17Scenario{name: "two-callers-different-signing-times-IF", pattern: "IF", entry: "validate", callers: 2, fetcher: "http", stCaller: []bool{true, false}})
